@@ -129,4 +129,6 @@ def panel (f : Feat) : Panel :=
     prog := prog f,
     ctrl := .uc (Uc.por WIDTH HEIGHT 1 5 false) }
 
+attribute [driver_simp] W bufferLen setLut sendResolution init turnOnIfTurnedOff turnOff setFullMode setPartialMode isWindowSizeOk setPartialWindow isBufferSizeOk sleep updateFrame displayFrame clearFrame clearPartialFrame prog
+
 end EpdVerif.Drivers.Epd1in02
